@@ -137,7 +137,9 @@ def _mol_pre(eng, fr):
 
 
 UNITS += [molecule_unit(2, 1), molecule_unit(3, 1), molecule_unit(2, 2), molecule_unit(3, 1, order=(2, 0, 1)),
-          molecule_unit(2, 1, duplicate=True)]
+          molecule_unit(2, 1, duplicate=True),
+          # four fragments: the smallest molecule with a plurality that is not an absolute majority (2:1:1)
+          molecule_unit(4, 1)]
 
 
 def molecule_replay(order, duplicate):
